@@ -1363,7 +1363,9 @@ struct RefCase {
     keys: Vec<Vec<u8>>,
     /// how the reference column is declared: 0 = unsigned word (entries without a reference hold
     /// a delayed constant), 1 = unsigned word next to plain equal constants, 2 = signed word
-    /// giving the target's position, 3 = signed word giving target position - own position
+    /// giving the target's position, 3 = signed word giving target position - own position,
+    /// 4 = unsigned word in the second variant of the schema (entries without a reference are of
+    /// the first variant)
     mode: u8,
 }
 
@@ -1396,11 +1398,16 @@ fn check_refs(case: &RefCase) -> (String, Option<(String, String)>) {
     if case.extra_col {
         common.push(PropSpec::U);
     }
-    common.push(if case.mode >= 2 { PropSpec::S } else { PropSpec::U }); // the reference (or a plain number when the entry references nothing)
+    // mode 4: the reference column belongs to the second variant of the schema (entries that
+    // reference nothing are of the first variant and hold a plain number there)
+    let in_variant = case.mode == 4;
+    if !in_variant {
+        common.push(if case.mode >= 2 { PropSpec::S } else { PropSpec::U }); // the reference (or a plain number when the entry references nothing)
+    }
     let schema = SchemaSpec {
         stores: vec![StoreKind::Plain],
         common,
-        variants: vec![],
+        variants: if in_variant { vec![vec![PropSpec::U], vec![PropSpec::U]] } else { vec![] },
         sort: if case.sorted { Some(vec![0]) } else { None },
     };
     let entries: Vec<EntrySpec> = (0..n)
@@ -1410,14 +1417,15 @@ fn check_refs(case: &RefCase) -> (String, Option<(String, String)>) {
                 vals.push(Val::U(1000 + 300 * k as u64));
             }
             vals.push(match (case.f[k], case.mode) {
-                (Some(t), 0 | 1) => Val::Ref(t),
+                (Some(t), 0 | 1 | 4) => Val::Ref(t),
                 (Some(t), 2) => Val::SRef(t),
                 (Some(t), _) => Val::SRel(t),
                 (None, 0) => Val::UW(n as u64 + 7),
                 (None, 1) => Val::U(0),
+                (None, 4) => Val::U(7),
                 (None, _) => Val::S(-7),
             });
-            EntrySpec { variant: None, vals }
+            EntrySpec { variant: if in_variant { Some(if case.f[k].is_some() { 1 } else { 0 }) } else { None }, vals }
         })
         .collect();
     let spec = DirSpec { schema, entries, indexes: simple_index(n) };
@@ -1877,7 +1885,7 @@ fn c15(args: &Args) -> ! {
     let mut rep = Report::new(
         "schemamc",
         "C15",
-        "every reference function f: entries -> entries+none ((n+1)^n graphs) x every insertion order (n!) x {sorted,unsorted} x {reference column alone, next to another column} x {unsigned word, unsigned word beside plain equal constants, signed word = target position, signed word = target - own position}, n in 1..4 (quick) / 1..5 (thorough), plus references between two, three, four and five stores of one pack (chains of stores each sorted on its references into the next) (every target function on small stores, stores of 257/300 entries reversed by their sort, every order of adding the stores); plus structured graphs (successor chain, everyone->last, reversal, self) at n in {32,300,1000,20000} crossing the 1-byte position boundary and rayon's sequential cut-offs; non-trivial = at least one reference and (unsorted or the sort moves an entry)",
+        "every reference function f: entries -> entries+none ((n+1)^n graphs) x every insertion order (n!) x {sorted,unsorted} x {reference column alone, next to another column} x {unsigned word, unsigned word beside plain equal constants, signed word = target position, signed word = target - own position, unsigned word held by the second variant of the schema}, n in 1..4 (quick) / 1..5 (thorough), plus references between two, three, four and five stores of one pack (chains of stores each sorted on its references into the next) (every target function on small stores, stores of 257/300 entries reversed by their sort, every order of adding the stores); plus structured graphs (successor chain, everyone->last, reversal, self) at n in {32,300,1000,20000} crossing the 1-byte position boundary and rayon's sequential cut-offs; non-trivial = at least one reference and (unsorted or the sort moves an entry)",
     );
     if let Some(p) = &args.replay {
         let j: J = serde_json::from_str(&std::fs::read_to_string(p).expect("replay file")).unwrap();
@@ -1941,7 +1949,7 @@ fn c15(args: &Args) -> ! {
                         for rev in [false, true] {
                             let mut order: Vec<usize> = (0..n).collect();
                             if rev { order.reverse(); }
-                            for mode in 0..4u8 {
+                            for mode in 0..5u8 {
                                 descs.push(RefCase { n, f: f.clone(), order: order.clone(), sorted, extra_col: n % 2 == 0, keys: keys.clone(), mode });
                             }
                         }
@@ -1965,7 +1973,7 @@ fn c15(args: &Args) -> ! {
             for order in permutations(n) {
                 for sorted in [true, false] {
                     for extra_col in [false, true] {
-                        for mode in 0..4u8 {
+                        for mode in 0..5u8 {
                             descs.push(RefCase { n, f: f.clone(), order: order.clone(), sorted, extra_col, keys: keys.clone(), mode });
                         }
                     }
